@@ -85,13 +85,28 @@ def gen_cases(spec, ctx):
         # identical case list for every hash seed of the same batch
         key = spec.get("batch", spec.get("k"))
         r = random.Random(f"C07/{spec.get('seed', 0)}/{st}/{key}")
+        from gv import formats
         for i in range(spec["n"]):
-            a, b = cli_pair(r)
+            t = "json"
+            if r.random() < 0.4:
+                t = r.choice(formats.TYPES)
+                a, b = formats.gen_pair_for_type(r, t)
+            else:
+                a, b = cli_pair(r)
             ds, le = r.choice(gen.DS), r.choice(gen.LE)
             if r.random() < 0.4:
                 ds = "none"
             mode = r.choice(MODES)
-            yield {"a": a, "b": b, "ds": ds, "le": le, "mode": mode, "idx": i, "kind": st}
+            tb = t
+            if t != "json" and t in formats.DATA_TYPES and r.random() < 0.5:
+                tb = r.choice(formats.DATA_TYPES)     # the second file in another data format
+            if i % 12 in (5, 11):
+                # cross-format pairs listed as raw edits: the place where a node without its own repr would leak an address
+                a, b = formats.gen_pair_for_type(r, "yaml")
+                t, tb = (r.choice(["json", "json5", "yaml", "pickle"]), "plist") if i % 12 == 5 else \
+                    ("plist", r.choice(["json", "yaml", "pickle"]))
+                mode = r.choice([["-e"], ["-d"], []])
+            yield {"a": a, "b": b, "ds": ds, "le": le, "mode": mode, "idx": i, "kind": st, "type": t, "type_b": tb}
         return
     r = ctx.rng
     if st == "purity":
@@ -129,14 +144,27 @@ def snapshot(tree):
 _garbage = []
 
 
+def _has_none(o):
+    from gv.formats import _has_none as h
+    return h(o)
+
+
 def check(case, ctx):
     kind = case["kind"]
     diags = []
     monitors.TRAP.reset()
     try:
         if kind in ("cross-seed", "subprocess"):
-            pa = families.tmpfile(json.dumps(case["a"]).encode(), ".json")
-            pb = families.tmpfile(json.dumps(case["b"]).encode(), ".json")
+            from gv import formats
+            t = case.get("type", "json")
+            pa = families.tmpfile(formats.write(t, case["a"]), formats.EXT[t])
+            tb = case.get("type_b", t)
+            b_doc = case["b"]
+            if tb in ("plist", "pickle", "yaml") and tb != t and not isinstance(b_doc, (dict, list)):
+                b_doc = [b_doc]
+            if tb == "plist" and _has_none(b_doc):
+                tb = t
+            pb = families.tmpfile(formats.write(tb, b_doc), formats.EXT[tb])
             args = argv_for(case, pa, pb)
             if kind == "cross-seed":
                 # perturb allocation order: a hash-seed dependent amount of garbage stays alive
